@@ -264,8 +264,8 @@ def t_mixed_clock(ctx):
           'naive_new': lambda: dict(event_created_at=datetime.datetime(2090, 1, 1, 12))}
     outcome = {}
 
-    def try_dispatch(inv, lab, kind):
-        e = ctx.ev(C, lab, event_timeout=30.0, **mk[kind]())
+    def try_dispatch(inv, lab, kind, cls=C):
+        e = ctx.ev(cls, lab, event_timeout=30.0, **mk[kind]())
         try:
             inv.dispatch(bus, e)
             outcome[lab] = 'accepted'
@@ -284,7 +284,7 @@ def t_mixed_clock(ctx):
         m = ctx.main
         try_dispatch(m, 'C0', kinds[0])
         try_dispatch(m, 'C1', kinds[1])
-        m.dispatch(bus, ctx.ev(P, 'P1', event_timeout=30.0))
+        try_dispatch(m, 'P1', 'default', P)
         await asyncio.sleep(1)
         await bus.wait_until_idle()
         st['idle'] = True
@@ -295,7 +295,7 @@ def t_mixed_clock(ctx):
     kids = [k for r in p1.event_results.values() for k in r.event_children]
     for lab, how in outcome.items():
         e = ctx.events[lab]
-        n_run = tr.count('A', lab, 'hC')
+        n_run = tr.count('A', lab, 'hP' if lab == 'P1' else 'hC')
         if how == 'accepted':
             sc = ctx.snap(e)
             ctx.check('C14.accepted_processed', n_run == 1 and sc['status'] == 'completed' and sc['signal'] is True, ev=lab, n=n_run, got=(sc['status'], sc['signal']))
